@@ -1,7 +1,7 @@
 # -*- coding: utf-8 -*-
 """C16 - JUnit reports: well-formed XML, counters that match the test cases (E1 + E4).
 
-Three sweeps, one oracle (check_reports):
+Four sweeps, one oracle (check_reports):
 
 1. runs      the C01 run enumeration (vlib.runcases: shapes x outcome deviations x configurations, every single hook
              fault, cleanups at every layer) x show_skipped on/off, executed by the shared harness with the real
@@ -9,7 +9,8 @@ Three sweeps, one oracle (check_reports):
 2. hostile   hand-written feature texts with ten text slots (feature / scenario / step name, tag - these travel through
              the real Gherkin parser - assertion, exception and hook-exception message, captured stdout / stderr, log
              record) x fifteen hostile atoms, every (slot, atom) single on every hostile shape, pairs on a small one;
-3. switches  all 128 combinations of the seven behave.reporter.junit.* userdata booleans on three shapes.
+3. switches  all 128 combinations of the seven behave.reporter.junit.* userdata booleans on three shapes;
+4. addressed feature files on disk run by the real Runner x the ways of naming them on the command line.
 
 The oracle reads every TESTS-*.xml with expat (xml.dom.minidom; never ElementTree, whose serializer the reporter
 patches) and compares it with the model after the run.
@@ -35,7 +36,13 @@ RULE = ("Runs: the runs of C01's enumeration (feature trees x step-outcome devia
         "backgrounds + doc-string/table; one raising hook of every scenario-level kind; raising cleanups; raising "
         "before_feature / after_feature / before_all) x show_skipped on/off, every pair of (slot, atom) on a small shape "
         "(quick: one atom per class). Switches: all 128 combinations of the seven behave.reporter.junit.* userdata "
-        "booleans on three shapes x show_skipped on/off. Oracle (per reported feature): the TESTS-*.xml file exists "
+        "booleans on three shapes x show_skipped on/off. Addressing: three real feature files in a scratch directory "
+        "(features/a.feature, features/sub/b.feature, other/c.feature) run by the real Runner (setup_paths sets "
+        "config.base_dir, real feature collection) x 17 ways of naming them on the command line (none, directory, "
+        "directories, trailing slash, explicit files in two orders, one file, file:LINE, directory + file, ./file, "
+        "absolute files / directories) x 2 outcome variants x show_skipped on/off: every reported feature has exactly "
+        "one document of its own and the class-name part of testsuite@name / testcase@classname is neither empty nor "
+        "'None'. Oracle (per reported feature): the TESTS-*.xml file exists "
         "(unless the feature is skipped and hidden) and parses with expat; its testcase entries are the feature's "
         "scenarios in order (outline rows included, skipped ones iff shown) with the model's final status and the "
         "matching child class (none / failure / error / skipped); tests, failures, errors, skipped attributes equal the "
@@ -399,23 +406,27 @@ def trigger_class(info):
     return "hostile-text" if info.get("atoms") else "plain"
 
 
-def check_reports(v, feats, outdir, shown, info):
-    """compare every report in outdir with the model; appends violations to v; -> structural summary (for dg/out)"""
+def check_reports(v, feats, outdir, shown, info, filemap=None):
+    """compare every report in outdir with the model; appends violations to v; -> structural summary (for dg/out)
+    filemap: {feature index: report file name} when the names are discovered (discover_reports) instead of known"""
     hostile = bool(info.get("hostile"))
     raised_hooks = info.get("raised", ())
     summary = []
     files = sorted(os.path.basename(p) for p in glob.glob(os.path.join(outdir, "*")))
     expected_files = []
     for fi, feature in enumerate(feats):
-        fname = "TESTS-f%d.xml" % fi
+        fname = "TESTS-f%d.xml" % fi if filemap is None else filemap.get(fi, "(no document)")
         fstatus = feature.status.name
         present = fname in files
         if not present:
             if not (fstatus == "skipped" and not shown) and not info.get("escaped"):
-                v.append(({"subcheck": "report", "clause": "missing", "feature_status": fstatus,
-                           "shown": str(bool(shown))},
-                          "no %s for feature %r with status %s (show_skipped=%s); files: %s"
-                          % (fname, feature.name, fstatus, shown, files)))
+                desc = {"subcheck": "report", "clause": "missing", "feature_status": fstatus, "shown": str(bool(shown))}
+                if info.get("addressing"):      # files on disk: the trigger class is how this feature was addressed
+                    desc = {"subcheck": "report", "clause": "missing", "addressing": info["addr_of"].get(fi, "?")}
+                v.append((desc,
+                          "no %s for feature %r (%s) with status %s (show_skipped=%s); files: %s"
+                          % ("document" if filemap is not None else fname, feature.name, feature.filename, fstatus,
+                             shown, files)))
             summary.append((fname, "absent"))
             continue
         expected_files.append(fname)
@@ -518,8 +529,10 @@ def check_reports(v, feats, outdir, shown, info):
                           % (fname, attr, val, n, classes)))
         summary.append((fname, tuple(classes), tuple(suite.getAttribute(k) for k in ("tests", "failures", "errors", "skipped"))))
     for fn in files:
-        if fn not in expected_files and not fn.startswith("TESTS-f"):
-            v.append(({"subcheck": "report", "clause": "unexpected-file"}, "unexpected file %s" % fn))
+        if fn not in expected_files and (filemap is not None or not fn.startswith("TESTS-f")):
+            v.append(({"subcheck": "report", "clause": "unexpected-file",
+                       "addressing": "files-on-disk" if info.get("addressing") else "harness"},
+                      "file %s belongs to no reported feature (files: %s)" % (fn, files)))
     return summary
 
 
@@ -615,7 +628,7 @@ def finish(v, summary, case, nontrivial, marks=()):
         else:
             classes.add(item[1])
     interesting = nontrivial or any(c for c in classes if not isinstance(c, tuple) or
-                                    (c[0] != "seen" and c[1:] != (False, False, False)))
+                                    (c[0] not in ("seen", "addressed") and c[1:] != (False, False, False)))
     return {"v": v, "dg": flat, "out": tuple(sorted(map(repr, classes))), "n": 1,
             "nt": digest(case) if interesting else None}
 
@@ -705,6 +718,171 @@ def run_hostile(case):
         shutil.rmtree(d, ignore_errors=True)
 
 
+# ------------------------------------------------------------------ how the features were addressed
+ADDR_FILES = ("features/a.feature", "features/sub/b.feature", "other/c.feature")
+ADDR_TEXT = {
+    "mixed": (u"Feature: Alpha\n  Scenario: A1\n    Given step 1 pass\n  Scenario: A2\n    Given step 2 fail\n",
+              u"Feature: Beta\n  Scenario Outline: B\n    Given step 1 <o>\n    Examples:\n      | o |\n      | pass |\n"
+              u"      | error |\n",
+              u"@skipme\nFeature: Gamma\n  Scenario: C1\n    Given step 1 pass\n"),
+    "pass": (u"Feature: Alpha\n  Scenario: A1\n    Given step 1 pass\n  Scenario: A2\n    Given step 2 pass\n",
+             u"Feature: Beta\n  Scenario Outline: B\n    Given step 1 <o>\n    Examples:\n      | o |\n      | pass |\n"
+             u"      | pass |\n",
+             u"Feature: Gamma\n  Scenario: C1\n    Given step 1 pass\n"),
+}
+A_, B_, C_ = ADDR_FILES
+# mode -> command-line paths ("$" = absolute scratch directory); (file, line) = file:LINE of a scenario / an outline
+ADDR_MODES = (
+    ("default", ()),
+    ("dir", ("features",)),
+    ("dir-slash", ("features/",)),
+    ("dirs", ("features", "other")),
+    ("dirs-slash", ("features/", "other/")),
+    ("files", (A_, B_, C_)),
+    ("files-reversed", (C_, B_, A_)),
+    ("two-files", (A_, B_)),
+    ("one-file", (B_,)),
+    ("file-lines", (A_ + ":2", B_ + ":2", C_ + ":3")),
+    ("file-line+file", (A_ + ":4", B_)),
+    ("dir+file", ("features/sub", C_)),
+    ("file+dir", (C_, "features")),
+    ("dot-files", ("./" + A_, "./" + B_)),
+    ("abs-files", ("$/" + A_, "$/" + B_, "$/" + C_)),
+    ("abs-dir", ("$/features",)),
+    ("abs-dir-slash", ("$/features/", "$/other/")),
+)
+ADDR = dict(ADDR_MODES)
+
+
+def discover_reports(v, feats, outdir, info):
+    """-> {feature index: file name}: every document is attributed to the feature whose name ends its testsuite name
+    ("<classname>.<feature name>"); the classname part of testsuite@name and testcase@classname must be a real name"""
+    filemap, mode = {}, info.get("addressing", "-")
+    for path in sorted(glob.glob(os.path.join(outdir, "*"))):
+        fn = os.path.basename(path)
+        try:
+            suite = minidom.parse(path).documentElement
+        except (ExpatError, ValueError, UnicodeError):
+            continue        # reported as unexpected-file / missing by check_reports
+        sname = suite.getAttribute("name")
+        owners = [fi for fi, f in enumerate(feats) if sname == f.name or sname.endswith(u"." + f.name)]
+        if len(owners) != 1:
+            continue
+        fi = owners[0]
+        if fi in filemap:
+            v.append(({"subcheck": "report", "clause": "several-documents-for-one-feature",
+                       "addressing": info["addr_of"].get(fi, "?")},
+                      "%s and %s both describe feature %r" % (filemap[fi], fn, feats[fi].name)))
+            continue
+        filemap[fi] = fn
+        fname = feats[fi].name
+        names = [("testsuite@name", sname)] + [("testcase@classname", c.getAttribute("classname"))
+                                               for c in children(suite, "testcase")]
+        for attr, val in names:
+            prefix = val[:-len(fname)].rstrip(u".") if val.endswith(fname) else val
+            if prefix in (u"", u"None"):
+                v.append(({"subcheck": "report", "clause": "classname", "value": prefix or "empty", "attr": attr,
+                           "addressing": info["addr_of"].get(fi, "?")},
+                          "%s: %s=%r - the class name part is %r (feature file %s, paths %s)"
+                          % (fn, attr, val, prefix, feats[fi].filename, info.get("paths"))))
+                break
+    return filemap
+
+
+def address_class(filename, paths, scratch):
+    """how the command line addressed this feature file: default | directory | explicit-file | file-line, abs- prefix"""
+    full = os.path.normpath(os.path.join(scratch, filename))
+    for p in paths:
+        pre = "abs-" if os.path.isabs(p) else ""
+        loc, _, line = p.partition(":")
+        target = os.path.normpath(os.path.join(scratch, loc))
+        if target == full:
+            return pre + ("file-line" if line else "explicit-file")
+    for p in paths:
+        target = os.path.normpath(os.path.join(scratch, p))
+        if full.startswith(target + os.sep):
+            return ("abs-" if os.path.isabs(p) else "") + "directory"
+    return "default"
+
+
+def run_addressed(case):
+    """case = (addressing mode, text variant, show_skipped): real feature files in a scratch directory, the real Runner
+    (setup_paths -> config.base_dir, feature collection, parse_features) with steps from a fresh StepRegistry"""
+    mode, variant, show = case
+    m = harness._imp()
+    harness.reset_globals()
+    from behave.runner import Runner
+    d = tempfile.mkdtemp(dir=SHM, prefix="c16run-")
+    cwd = os.getcwd()
+    root = logging.getLogger()
+    saved_handlers, saved_level = list(root.handlers), root.level
+    old_out, old_err = sys.stdout, sys.stderr
+    saved_path = list(sys.path)
+    escaped, feats, v = None, [], []
+    try:
+        for rel, text in zip(ADDR_FILES, ADDR_TEXT[variant]):
+            os.makedirs(os.path.join(d, os.path.dirname(rel)), exist_ok=True)
+            with io.open(os.path.join(d, rel), "w", encoding="utf-8") as f:
+                f.write(text)
+        os.makedirs(os.path.join(d, "features", "steps"))
+        os.makedirs(os.path.join(d, "steps"))           # so that a run addressed through other/ finds a base directory
+        paths = [p.replace("$", d) for p in ADDR[mode]]
+        args = ["--junit", "--junit-directory", "reports", "--no-summary", "-f", "null",
+                "--show-skipped" if show else "--no-skipped", "--tags=not skipme"] + paths
+        os.chdir(d)
+        sys.stdout, sys.stderr = io.StringIO(), io.StringIO()
+        config = m["Configuration"](args, load_config=False)
+        reg = m["StepRegistry"]()
+
+        def make_step(kind):
+            def step_impl(ctx, n):
+                if kind == "fail":
+                    assert False, "boom %d" % n
+                if kind == "error":
+                    raise RuntimeError("err %d" % n)
+            return step_impl
+        for kind in ("pass", "fail", "error"):
+            reg.add_step_definition("step", "step {n:d} %s" % kind, make_step(kind))
+
+        class FileRunner(Runner):
+            def load_hooks(self, filename=None):
+                self.hooks = {}
+
+            def load_step_definitions(self, extra_step_paths=None):
+                pass        # no step modules on disk: the process-wide registry stays untouched
+
+        runner = FileRunner(config)
+        runner.step_registry = reg
+        try:
+            runner.run()
+        except BaseException as e:      # noqa - property: nothing escapes run()
+            escaped = (type(e).__name__, str(e)[:200])
+        feats = list(runner.features)
+        info = {"addressing": mode, "trigger": "addressing:" + mode, "paths": paths, "escaped": bool(escaped),
+                "addr_of": {fi: address_class(f.filename, paths, d) for fi, f in enumerate(feats)}}
+        if escaped:
+            escaped_violation(v, escaped, info, feats)
+        outdir = os.path.join(d, "reports")
+        filemap = discover_reports(v, feats, outdir, info)
+        summary = check_reports(v, feats, outdir, bool(show), info, filemap)
+        summary.append(("escaped", escaped and escaped[0]))
+        return finish(v, summary, case, True, [("addressed", mode, len(feats), len(filemap))])
+    finally:
+        os.chdir(cwd)
+        sys.stdout, sys.stderr = old_out, old_err
+        sys.path[:] = saved_path
+        root.handlers[:] = saved_handlers
+        root.setLevel(saved_level)
+        shutil.rmtree(d, ignore_errors=True)
+
+
+def addressed_cases():
+    for mode, _ in ADDR_MODES:
+        for variant in ("pass", "mixed"):
+            for show in (True, False):
+                yield (mode, variant, show)
+
+
 # ------------------------------------------------------------------ enumeration
 QUICK_CFGS_SIZE3 = ("default", "dry", "tags_t")
 
@@ -766,7 +944,8 @@ def run(ctx):
                       "; every run reported with show_skipped on and off",
                   "slots": len(SLOTS), "atoms": len(ATOMS), "single_shapes": len(SINGLE_SHAPES),
                   "pair_atoms": len(QUICK_PAIR_ATOMS) if ctx.quick else len(ATOMS),
-                  "switch_combinations": 128, "switch_shapes": len(SWITCH_SHAPES)}
+                  "switch_combinations": 128, "switch_shapes": len(SWITCH_SHAPES),
+                  "addressing_modes": len(ADDR_MODES)}
     ctx.sweep(run_hostile, single_cases(), chunk=16, name="hostile singles (slot x atom x shape x show_skipped)")
     seen = set()
     for out in ctx.outcomes:
@@ -774,11 +953,15 @@ def run(ctx):
     ctx.note("slots_seen_in_documents", sorted(seen))
     ctx.guard(len(seen) == len(SLOTS), "an XML-legal atom of every one of the ten slots arrived in a parsed document "
                                        "(seen: %s)" % sorted(seen))
+    ctx.sweep(run_addressed, addressed_cases(), chunk=4, name="feature files on disk x how they are addressed (real Runner)")
     ctx.sweep(run_hostile, switch_cases(), chunk=16, name="128 userdata switch combinations x 3 shapes")
     ctx.sweep(run_hostile, pair_cases(ctx.tier), chunk=32, name="hostile pairs on the small shape")
     ctx.sweep(run_plain, plain_cases(ctx.tier), chunk=64, name="C01 runs, JUnit on, show_skipped on and off")
     flat = " ".join(" ".join(out) for out in ctx.outcomes)
     for st in ("passed", "failed", "error", "hook_error", "skipped", "untested"):
         ctx.guard("('%s'," % st in flat, "some reported test case has final status %s" % st)
+    for mode, _ in ADDR_MODES:
+        ctx.guard("('addressed', '%s', " % mode in flat and "('addressed', '%s', 0" % mode not in flat,
+                  "addressing mode %s ran at least one feature" % mode)
     ctx.guard(len(ctx.outcomes) > 20, "at least 20 distinct report structures")
     ctx.guard(not glob.glob(os.path.join(SHM, "c16run-*")), "every per-case report directory was removed")
